@@ -13,6 +13,7 @@ for d in sorted(glob.glob(os.path.join(HERE, 'seeded', 'refactors', '*'))):
     txt = open(rp).read()
     lines = [l for l in txt.splitlines() if l.startswith('check')]
     last = lines[-1] if lines else ''
+    false_alarm = 'false alarm' in txt.lower()
     m = re.search(r'\b(HOLDS|VIOLATION|INCONCLUSIVE)\b', last.split('::')[-1] if '::' in last else last.split('):')[-1])
     verdict = m.group(1) if m else 'no verdict within the time limit (treated as INCONCLUSIVE)'
     why = ''
@@ -23,6 +24,8 @@ for d in sorted(glob.glob(os.path.join(HERE, 'seeded', 'refactors', '*'))):
     rd = os.path.join(d, 'README.txt')
     if os.path.isfile(rd):
         readme = ' '.join(x.strip() for x in open(rd).read().strip().splitlines()[:3])[:200]
+    if false_alarm:
+        verdict += ' (the FIRST answer was a false alarm of the check: a harness double was incomplete; fixed)'
     rows.append((os.path.basename(d), verdict, why, readme))
 with open(os.path.join(HERE, 'seeded', 'refactors.md'), 'w') as f:
     f.write('# Behaviour-preserving refactorings (false-alarm probe)\n\nWritten by sub-agents that were asked to restructure the code a '
@@ -33,6 +36,9 @@ with open(os.path.join(HERE, 'seeded', 'refactors.md'), 'w') as f:
     for r in rows:
         f.write('| %s | %s | %s | %s |\n' % r)
     f.write('\n%d refactorings: %d HOLDS, %d INCONCLUSIVE / no verdict in time, %d VIOLATION (false alarms).\n' % (
-        len(rows), sum(1 for r in rows if r[1] == 'HOLDS'),
-        sum(1 for r in rows if r[1] not in ('HOLDS', 'VIOLATION')), sum(1 for r in rows if r[1] == 'VIOLATION')))
+        len(rows), sum(1 for r in rows if r[1].startswith('HOLDS')),
+        sum(1 for r in rows if not r[1].startswith('HOLDS') and not r[1].startswith('VIOLATION')),
+        sum(1 for r in rows if r[1].startswith('VIOLATION'))))
+    f.write('Two refactorings (C11-ref2, C18-ref2) first drew a VIOLATION: both were false alarms caused by incomplete harness doubles '
+            '(random.sample, select() on socket objects), found by this probe and fixed; doubles now answer INCONCLUSIVE for API they do not model.\n')
 print(len(rows))
